@@ -249,10 +249,13 @@ fn find_char_index(char_set: &BTreeMap<usize, char>, as_char: char) -> Result<us
     char_set
         .iter()
         .find_map(|(i, c)| (as_char == *c).then_some(*i))
-        .ok_or(GrammarError::new(
-            &format!("Character {as_char} is not in char set: {char_set:?}"),
-            GrammarErrorType::UnpackingError,
-        ))
+        // the message prints the whole character set: build it only when the lookup fails
+        .ok_or_else(|| {
+            GrammarError::new(
+                &format!("Character {as_char} is not in char set: {char_set:?}"),
+                GrammarErrorType::UnpackingError,
+            )
+        })
 }
 
 impl AddAssign<&mut PerVisibleAlphabetConstraints> for PerVisibleAlphabetConstraints {
